@@ -357,6 +357,9 @@ func (e *Engine) funcsOfType(sig *types.Signature) []*ssa.Function {
 		if !e.inModule(f) || len(f.Blocks) == 0 || f.Signature.Recv() != nil {
 			continue
 		}
+		if f.Synthetic == "package initializer" || f.Name() == "init" || strings.HasPrefix(f.Name(), "init#") {
+			continue // initialisers are never called through a function value
+		}
 		fs := f.Signature
 		if types.Identical(types.NewSignatureType(nil, nil, nil, fs.Params(), fs.Results(), fs.Variadic()), want) {
 			out = append(out, f)
@@ -438,7 +441,7 @@ func (e *Engine) localModSet(f *ssa.Function) (*ModSet, map[*ssa.Function]bool) 
 							addStructFieldsFresh(elem)
 						} else if !isArray(elem) {
 							hn, hs := U.ptrHeapT(elem)
-							ms.add(hn, hs, elem)
+							ms.addFresh(hn, hs, elem) // the function's own (escaping) local: fresh for every caller
 						}
 					}
 				default:
